@@ -7,6 +7,9 @@
 // caller-supplied character ranges live in exact-size heap blocks (no terminator unless the
 // overload takes a C string).
 //
+// Round 2: the same catalogue for char8_t/char16_t/char32_t/wchar_t (MC_PART 7, 8); replace(pos,count,cstr) and
+// replace(first,last,cstr) only compile for char (they call ::strlen) and are skipped for the other types.
+//
 // Deliberately NOT in the catalogue (tetl documents or consistently implements a wide contract):
 //   substr(pos > size()) / copy(dest,count,pos > size())      documented: empty string / nothing copied
 //   ctor(other,pos[,count]), assign(str,pos,count), append(str,pos,count)   defined through that substr
@@ -61,21 +64,22 @@ auto pos_of(S& v, Pos p) -> typename S::const_iterator
 }
 
 /// n letters in an exact-size block; terminated = one extra NUL
-inline char* letters(Ctx& cx, std::size_t n, bool terminated, char first = 'p')
+template <typename Char = char>
+inline Char* letters(Ctx& cx, std::size_t n, bool terminated, char first = 'p')
 {
-    char* p = cx.raw<char>(n + (terminated ? 1 : 0));
-    for (std::size_t i = 0; i < n; ++i) { p[i] = static_cast<char>(first + char(i % 10)); }
-    if (terminated) { p[n] = '\0'; }
+    Char* p = cx.raw<Char>(n + (terminated ? 1 : 0));
+    for (std::size_t i = 0; i < n; ++i) { p[i] = static_cast<Char>(first + char(i % 10)); }
+    if (terminated) { p[n] = Char(0); }
     return p;
 }
 
-template <std::size_t N>
-void inplace_string_cases(Catalogue& c, bool thorough)
+template <std::size_t N, typename Char = char>
+void inplace_string_cases(Catalogue& c, bool thorough, char const* cname = "char")
 {
-    using S             = etl::inplace_string<N>;
-    using SV            = etl::string_view;
+    using S             = etl::basic_inplace_string<Char, N>;
+    using SV            = etl::basic_string_view<Char>;
     constexpr auto npos = S::npos;
-    c.config            = cat("inplace_string<", N, ">");
+    c.config            = std::is_same_v<Char, char> ? cat("inplace_string<", N, ">") : cat("basic_inplace_string<", cname, ",", N, ">");
     char const* const F = "_string/basic_inplace_string.hpp|_string_view/basic_string_view.hpp";
 
     // ------------------------------------------------------------------------------------
@@ -85,32 +89,32 @@ void inplace_string_cases(Catalogue& c, bool thorough)
         c.bad("basic_inplace_string::basic_inplace_string(ptr,len)", cat("length_", b.cls), cat("inplace_string(p, ", show_sz(b.v), ")"), F,
             [=](Ctx& cx) {
                 S* p      = cx.raw<S>();
-                char* src = letters(cx, b.v <= N + 8 ? b.v : N + 2, false);
+                Char* src = letters<Char>(cx, b.v <= N + 8 ? b.v : N + 2, false);
                 cx.call([&] { ::new (static_cast<void*>(p)) S(src, b.v); });
             },
             false);
         c.bad("basic_inplace_string::basic_inplace_string(count,ch)", cat("count_", b.cls), cat("inplace_string(", show_sz(b.v), ", 'x')"), F,
             [=](Ctx& cx) {
                 S* p = cx.raw<S>();
-                cx.call([&] { ::new (static_cast<void*>(p)) S(b.v, 'x'); });
+                cx.call([&] { ::new (static_cast<void*>(p)) S(b.v, Char('x')); });
             },
             false);
     }
     c.ok("basic_inplace_string::basic_inplace_string(ptr,len)", "length_eq_capacity", cat("inplace_string(p, ", N, ")"), [=](Ctx& cx) {
         S* p      = cx.raw<S>();
-        char* src = letters(cx, N, false);
+        Char* src = letters<Char>(cx, N, false);
         cx.call([&] { ::new (static_cast<void*>(p)) S(src, N); });
     });
     c.ok("basic_inplace_string::basic_inplace_string(count,ch)", "count_eq_capacity", cat("inplace_string(", N, ", 'x')"), [=](Ctx& cx) {
         S* p = cx.raw<S>();
-        cx.call([&] { ::new (static_cast<void*>(p)) S(N, 'x'); });
+        cx.call([&] { ::new (static_cast<void*>(p)) S(N, Char('x')); });
     });
     for (std::size_t len : {N, N + 1, N + 2}) {
         bool const bad = len > N;
         auto row       = [&](char const* subject, char const* what, auto fn) {
             auto body = [=](Ctx& cx) {
                 S* p      = cx.raw<S>();
-                char* src = letters(cx, len, true);
+                Char* src = letters<Char>(cx, len, true);
                 cx.call([&] { fn(p, src, len); });
             };
             if (bad) {
@@ -119,18 +123,18 @@ void inplace_string_cases(Catalogue& c, bool thorough)
                 c.ok(subject, "length_eq_capacity", cat(what, " of ", len, " characters"), body);
             }
         };
-        row("basic_inplace_string::basic_inplace_string(cstr)", "inplace_string(cstr)", [](S* p, char* src, std::size_t) { ::new (static_cast<void*>(p)) S(src); });
+        row("basic_inplace_string::basic_inplace_string(cstr)", "inplace_string(cstr)", [](S* p, Char* src, std::size_t) { ::new (static_cast<void*>(p)) S(src); });
         row("basic_inplace_string::basic_inplace_string(first,last)", "inplace_string(first,last)",
-            [](S* p, char* src, std::size_t n) { ::new (static_cast<void*>(p)) S(src, src + n); });
+            [](S* p, Char* src, std::size_t n) { ::new (static_cast<void*>(p)) S(src, src + n); });
         row("basic_inplace_string::basic_inplace_string(sv)", "inplace_string(string_view)",
-            [](S* p, char* src, std::size_t n) { ::new (static_cast<void*>(p)) S(SV(src, n)); });
+            [](S* p, Char* src, std::size_t n) { ::new (static_cast<void*>(p)) S(SV(src, n)); });
         row("basic_inplace_string::basic_inplace_string(sv,pos,n)", "inplace_string(string_view, 0, npos)",
-            [](S* p, char* src, std::size_t n) { ::new (static_cast<void*>(p)) S(SV(src, n), 0, npos); });
+            [](S* p, Char* src, std::size_t n) { ::new (static_cast<void*>(p)) S(SV(src, n), 0, npos); });
     }
     c.bad("basic_inplace_string::basic_inplace_string(first,last)", "range_reversed", "inplace_string(p+1, p)", F,
         [=](Ctx& cx) {
             S* p      = cx.raw<S>();
-            char* src = letters(cx, 2, false);
+            Char* src = letters<Char>(cx, 2, false);
             cx.call([&] { ::new (static_cast<void*>(p)) S(src + 1, src); });
         },
         false);
@@ -138,14 +142,14 @@ void inplace_string_cases(Catalogue& c, bool thorough)
         c.bad("basic_inplace_string::basic_inplace_string(sv,pos,n)", cat("pos_", b.cls), cat("inplace_string(string_view of 2, ", show_sz(b.v), ", 0)"), F,
             [=](Ctx& cx) {
                 S* p      = cx.raw<S>();
-                char* src = letters(cx, 2, false);
+                Char* src = letters<Char>(cx, 2, false);
                 cx.call([&] { ::new (static_cast<void*>(p)) S(SV(src, 2), b.v, 0); });
             },
             false);
     }
     c.ok("basic_inplace_string::basic_inplace_string(sv,pos,n)", "pos_eq_size", "inplace_string(string_view of 2, 2, npos)", [=](Ctx& cx) {
         S* p      = cx.raw<S>();
-        char* src = letters(cx, 2, false);
+        Char* src = letters<Char>(cx, 2, false);
         cx.call([&] { ::new (static_cast<void*>(p)) S(SV(src, 2), 2, npos); });
     });
 
@@ -158,10 +162,10 @@ void inplace_string_cases(Catalogue& c, bool thorough)
             auto mk              = [s, shrunk](Ctx& cx) {
                 S* v = cx.make<S>();
                 if (shrunk) {
-                    while (v->size() < N) { v->push_back(static_cast<char>('A' + char(v->size() % 26))); }
+                    while (v->size() < N) { v->push_back(static_cast<Char>('A' + char(v->size() % 26))); }
                     while (v->size() > s) { v->pop_back(); }
                 } else {
-                    while (v->size() < s) { v->push_back(static_cast<char>('a' + char(v->size() % 26))); }
+                    while (v->size() < s) { v->push_back(static_cast<Char>('a' + char(v->size() % 26))); }
                 }
                 return v;
             };
@@ -194,35 +198,35 @@ void inplace_string_cases(Catalogue& c, bool thorough)
             // --- assignment forms: argument longer than capacity -------------------------------
             for (auto b : bad_values(N + 1, thorough)) {
                 row(true, "basic_inplace_string::assign(count,ch)", cat("count_", b.cls), cat("assign(", show_sz(b.v), ", 'x')"),
-                    [=](S& v, Ctx&) { v.assign(b.v, 'x'); });
+                    [=](S& v, Ctx&) { v.assign(b.v, Char('x')); });
                 rowp(true, "basic_inplace_string::assign(ptr,count)", cat("count_", b.cls), cat("assign(p, ", show_sz(b.v), ")"),
-                    [=](S&, Ctx& cx) { return letters(cx, b.v <= N + 8 ? b.v : N + 2, false); }, [=](S& v, char* p) { v.assign(p, b.v); });
+                    [=](S&, Ctx& cx) { return letters<Char>(cx, b.v <= N + 8 ? b.v : N + 2, false); }, [=](S& v, Char* p) { v.assign(p, b.v); });
             }
-            row(false, "basic_inplace_string::assign(count,ch)", "count_eq_capacity", cat("assign(", N, ", 'x')"), [=](S& v, Ctx&) { v.assign(N, 'x'); });
+            row(false, "basic_inplace_string::assign(count,ch)", "count_eq_capacity", cat("assign(", N, ", 'x')"), [=](S& v, Ctx&) { v.assign(N, Char('x')); });
             rowp(false, "basic_inplace_string::assign(ptr,count)", "count_eq_capacity", cat("assign(p, ", N, ")"),
-                [=](S&, Ctx& cx) { return letters(cx, N, false); }, [=](S& v, char* p) { v.assign(p, N); });
+                [=](S&, Ctx& cx) { return letters<Char>(cx, N, false); }, [=](S& v, Char* p) { v.assign(p, N); });
             for (std::size_t len : {N, N + 1, N + 2}) {
                 bool const bad        = len > N;
                 std::string const cls = bad ? "length_gt_capacity" : "length_eq_capacity";
-                auto src              = [=](S&, Ctx& cx) { return letters(cx, len, true); };
-                rowp(bad, "basic_inplace_string::operator=(cstr)", cls, cat("s = cstr of ", len), src, [](S& v, char* p) { v = p; });
-                rowp(bad, "basic_inplace_string::assign(cstr)", cls, cat("assign(cstr of ", len, ")"), src, [](S& v, char* p) { v.assign(p); });
-                rowp(bad, "basic_inplace_string::assign(first,last)", cls, cat("assign(p, p+", len, ")"), src, [=](S& v, char* p) { v.assign(p, p + len); });
-                rowp(bad, "basic_inplace_string::assign(sv)", cls, cat("assign(string_view of ", len, ")"), src, [=](S& v, char* p) { v.assign(SV(p, len)); });
-                rowp(bad, "basic_inplace_string::operator=(sv)", cls, cat("s = string_view of ", len), src, [=](S& v, char* p) { v = SV(p, len); });
+                auto src              = [=](S&, Ctx& cx) { return letters<Char>(cx, len, true); };
+                rowp(bad, "basic_inplace_string::operator=(cstr)", cls, cat("s = cstr of ", len), src, [](S& v, Char* p) { v = p; });
+                rowp(bad, "basic_inplace_string::assign(cstr)", cls, cat("assign(cstr of ", len, ")"), src, [](S& v, Char* p) { v.assign(p); });
+                rowp(bad, "basic_inplace_string::assign(first,last)", cls, cat("assign(p, p+", len, ")"), src, [=](S& v, Char* p) { v.assign(p, p + len); });
+                rowp(bad, "basic_inplace_string::assign(sv)", cls, cat("assign(string_view of ", len, ")"), src, [=](S& v, Char* p) { v.assign(SV(p, len)); });
+                rowp(bad, "basic_inplace_string::operator=(sv)", cls, cat("s = string_view of ", len), src, [=](S& v, Char* p) { v = SV(p, len); });
                 rowp(bad, "basic_inplace_string::assign(sv,pos,count)", cls, cat("assign(string_view of ", len, ", 0, npos)"), src,
-                    [=](S& v, char* p) { v.assign(SV(p, len), 0, npos); });
+                    [=](S& v, Char* p) { v.assign(SV(p, len), 0, npos); });
             }
-            rowp(true, "basic_inplace_string::assign(first,last)", "range_reversed", "assign(p+1, p)", [=](S&, Ctx& cx) { return letters(cx, 2, false); },
-                [](S& v, char* p) { v.assign(p + 1, p); });
+            rowp(true, "basic_inplace_string::assign(first,last)", "range_reversed", "assign(p+1, p)", [=](S&, Ctx& cx) { return letters<Char>(cx, 2, false); },
+                [](S& v, Char* p) { v.assign(p + 1, p); });
             for (auto b : bad_values(3, thorough)) {
                 rowp(true, "basic_inplace_string::assign(sv,pos,count)", cat("pos_", b.cls), cat("assign(string_view of 2, ", show_sz(b.v), ", 0)"),
-                    [=](S&, Ctx& cx) { return letters(cx, 2, false); }, [=](S& v, char* p) { v.assign(SV(p, 2), b.v, 0); });
+                    [=](S&, Ctx& cx) { return letters<Char>(cx, 2, false); }, [=](S& v, Char* p) { v.assign(SV(p, 2), b.v, 0); });
                 rowp(true, "basic_inplace_string::append(sv,pos,count)", cat("pos_", b.cls), cat("append(string_view of 2, ", show_sz(b.v), ", 0)"),
-                    [=](S&, Ctx& cx) { return letters(cx, 2, false); }, [=](S& v, char* p) { v.append(SV(p, 2), b.v, 0); });
+                    [=](S&, Ctx& cx) { return letters<Char>(cx, 2, false); }, [=](S& v, Char* p) { v.append(SV(p, 2), b.v, 0); });
             }
             rowp(false, "basic_inplace_string::append(sv,pos,count)", "pos_eq_size", "append(string_view of 2, 2, npos)",
-                [=](S&, Ctx& cx) { return letters(cx, 2, false); }, [=](S& v, char* p) { v.append(SV(p, 2), 2, npos); });
+                [=](S&, Ctx& cx) { return letters<Char>(cx, 2, false); }, [=](S& v, Char* p) { v.append(SV(p, 2), 2, npos); });
 
             // --- element access -----------------------------------------------------------------
             for (auto b : bad_values(s + 1, thorough)) {
@@ -241,7 +245,7 @@ void inplace_string_cases(Catalogue& c, bool thorough)
                 row(e, "basic_inplace_string::back()", cls, "back()", [](S& v, Ctx&) { touch(v.back()); });
                 row(e, "basic_inplace_string::back() const", cls, "back() const", [](S& v, Ctx&) { touch(static_cast<S const&>(v).back()); });
                 row(e, "basic_inplace_string::pop_back()", cls, "pop_back()", [](S& v, Ctx&) { v.pop_back(); });
-                row(s == N, "basic_inplace_string::push_back(ch)", s == N ? "full" : "not_full", "push_back('x')", [](S& v, Ctx&) { v.push_back('x'); });
+                row(s == N, "basic_inplace_string::push_back(ch)", s == N ? "full" : "not_full", "push_back('x')", [](S& v, Ctx&) { v.push_back(Char('x')); });
             }
 
             // --- erase --------------------------------------------------------------------------
@@ -291,19 +295,19 @@ void inplace_string_cases(Catalogue& c, bool thorough)
             // --- insert: index > size() -----------------------------------------------------------
             {
                 struct Arg {
-                    char* one;   // one letter, terminated
+                    Char* one;   // one letter, terminated
                     S* str;      // "x"
                 };
                 auto prep = [](S&, Ctx& cx) {
                     Arg a{};
-                    a.one = letters(cx, 1, true);
+                    a.one = letters<Char>(cx, 1, true);
                     a.str = cx.make<S>();
-                    if constexpr (N > 0) { a.str->push_back('x'); }
+                    if constexpr (N > 0) { a.str->push_back(Char('x')); }
                     return a;
                 };
                 auto all = [&](bool bad, std::string cls, std::size_t idx) {
                     std::string const I = show_sz(idx);
-                    rowp(bad, "basic_inplace_string::insert(index,count,ch)", cls, cat("insert(", I, ", 1, 'x')"), prep, [=](S& v, Arg) { v.insert(idx, 1, 'x'); });
+                    rowp(bad, "basic_inplace_string::insert(index,count,ch)", cls, cat("insert(", I, ", 1, 'x')"), prep, [=](S& v, Arg) { v.insert(idx, 1, Char('x')); });
                     rowp(bad, "basic_inplace_string::insert(index,cstr)", cls, cat("insert(", I, ", \"p\")"), prep, [=](S& v, Arg a) { v.insert(idx, a.one); });
                     rowp(bad, "basic_inplace_string::insert(index,ptr,count)", cls, cat("insert(", I, ", p, 1)"), prep, [=](S& v, Arg a) { v.insert(idx, a.one, 1); });
                     rowp(bad, "basic_inplace_string::insert(index,str)", cls, cat("insert(", I, ", str)"), prep, [=](S& v, Arg a) { v.insert(idx, *a.str); });
@@ -331,15 +335,15 @@ void inplace_string_cases(Catalogue& c, bool thorough)
             // --- compare / replace: pos > size() ------------------------------------------------------
             {
                 struct Arg {
-                    char* two; // two letters, terminated
+                    Char* two; // two letters, terminated
                     S* str;    // one or two letters
                 };
                 auto prep = [](S&, Ctx& cx) {
                     Arg a{};
-                    a.two = letters(cx, 2, true);
+                    a.two = letters<Char>(cx, 2, true);
                     a.str = cx.make<S>();
-                    if constexpr (N > 0) { a.str->push_back('p'); }
-                    if constexpr (N > 1) { a.str->push_back('q'); }
+                    if constexpr (N > 0) { a.str->push_back(Char('p')); }
+                    if constexpr (N > 1) { a.str->push_back(Char('q')); }
                     return a;
                 };
                 constexpr std::size_t strLen = N > 1 ? 2 : N;
@@ -380,8 +384,11 @@ void inplace_string_cases(Catalogue& c, bool thorough)
                         [=](S& v, Arg a) { v.replace(pos, cnt, *a.str, 0, npos); });
                     rowp(bad, "basic_inplace_string::replace(pos,count,ptr,count2)", cls, cat("replace(", P, ", p, 2)"), prep,
                         [=](S& v, Arg a) { v.replace(pos, cnt, a.two, 2); });
-                    rowp(bad, "basic_inplace_string::replace(pos,count,cstr)", cls, cat("replace(", P, ", \"pq\")"), prep,
-                        [=](S& v, Arg a) { v.replace(pos, cnt, a.two); });
+                    // API gap: replace(pos,count,cstr) / replace(first,last,cstr) call ::strlen and only compile for Char == char
+                    if constexpr (std::is_same_v<Char, char>) {
+                        rowp(bad, "basic_inplace_string::replace(pos,count,cstr)", cls, cat("replace(", P, ", \"pq\")"), prep,
+                            [=](S& v, Arg a) { v.replace(pos, cnt, a.two); });
+                    }
                 };
                 for (auto b : bad_values(s + 1, thorough)) { rep(true, cat("pos_", b.cls), b.v, 0); }
                 rep(false, "pos_eq_size", s, 0);
@@ -418,10 +425,12 @@ void inplace_string_cases(Catalogue& c, bool thorough)
                         [](S& v, auto t) { v.replace(std::get<0>(t), std::get<1>(t), *std::get<2>(t).str); });
                     rowp(e.bad, "basic_inplace_string::replace(first,last,ptr,count2)", e.cls, cat("replace(", R, ", p, 2)"), prep2,
                         [](S& v, auto t) { v.replace(std::get<0>(t), std::get<1>(t), std::get<2>(t).two, 2); });
-                    rowp(e.bad, "basic_inplace_string::replace(first,last,cstr)", e.cls, cat("replace(", R, ", \"pq\")"), prep2,
-                        [](S& v, auto t) { v.replace(std::get<0>(t), std::get<1>(t), std::get<2>(t).two); });
+                    if constexpr (std::is_same_v<Char, char>) {
+                        rowp(e.bad, "basic_inplace_string::replace(first,last,cstr)", e.cls, cat("replace(", R, ", \"pq\")"), prep2,
+                            [](S& v, auto t) { v.replace(std::get<0>(t), std::get<1>(t), std::get<2>(t).two); });
+                    }
                     rowp(e.bad, "basic_inplace_string::replace(first,last,count2,ch)", e.cls, cat("replace(", R, ", 2, 'x')"), prep2,
-                        [](S& v, auto t) { v.replace(std::get<0>(t), std::get<1>(t), 2, 'x'); });
+                        [](S& v, auto t) { v.replace(std::get<0>(t), std::get<1>(t), 2, Char('x')); });
                 }
             }
         }
@@ -511,6 +520,19 @@ void job_str(mc::Main& m, std::vector<std::string> tiers)
     });
 }
 
+// round 2: the same catalogue for the other character types (the size/terminator bookkeeping of
+// basic_inplace_string depends on sizeof(Char) and on the capacity: tiny layout below 16 characters)
+template <typename Char, std::size_t N>
+void job_wstr(mc::Main& m, std::vector<std::string> tiers, char const* cname)
+{
+    static std::string const name = cname;
+    m.job(cat("basic_inplace_string<", cname, ",", N, ">"), tiers, [](mc::Reporter& r) {
+        Catalogue c;
+        inplace_string_cases<N, Char>(c, r.thorough(), name.c_str());
+        run(r, c);
+    });
+}
+
 } // namespace
 
 int main(int argc, char** argv)
@@ -537,8 +559,22 @@ int main(int argc, char** argv)
 #elif MC_PART == 5
     job_str<17>(m, th);
     job_str<255>(m, th);
-#else
+#elif MC_PART == 6
     job_str<256>(m, th);
+#elif MC_PART == 7
+    job_wstr<char16_t, 3>(m, both, "char16_t");
+    job_wstr<wchar_t, 16>(m, th, "wchar_t");
+    m.job("string_view/wide", th, [](mc::Reporter& r) {
+        Catalogue c;
+        string_view_cases<char8_t>(c, true, "char8_t");
+        string_view_cases<char16_t>(c, true, "char16_t");
+        string_view_cases<char32_t>(c, true, "char32_t");
+        run(r, c);
+    });
+#else
+    job_wstr<char32_t, 15>(m, th, "char32_t");
+    job_wstr<char8_t, 2>(m, th, "char8_t");
+    job_wstr<wchar_t, 1>(m, th, "wchar_t");
 #endif
     return m.run();
 }
